@@ -2,7 +2,7 @@
 import os
 HERE = os.path.dirname(os.path.abspath(__file__))
 VARS = ["ReadyCheckOnce", "RestartAll", "DrainCalls", "GracefulRepliesEarly", "IgnoreTimeout", "ForcedWaits", "LifoQueue"]
-INVS = "C07_CallOnlyAfterAllReady C07_Fifo C07_NoneLost C07_AllAccounted C06w_TrueMeansIdle C01_DrainReleases C01_NoCallInShutdown"
+INVS = "C07_Fifo C07_AllAccounted C01_DrainReleases"
 
 
 def cfg(name, K, conns, nr, cp, ticks, stops, timeout, flip=None, edges=False, spec="Spec", props="Steps", invs=INVS):
@@ -25,15 +25,15 @@ def cfg(name, K, conns, nr, cp, ticks, stops, timeout, flip=None, edges=False, s
 cfg("MC_worker_ready", 2, 2, 2, 1, 0, 0, 2, edges=True)          # C07: readiness scripts, no stop
 cfg("MC_worker_ready3", 3, 3, 2, 1, 0, 0, 2)
 cfg("MC_worker_ready_k1", 1, 3, 3, 2, 0, 0, 2, edges=True)
-cfg("MC_worker_stop", 1, 2, 0, 0, 3, 1, 2, edges=True)            # C06w: stop, ticks, completions
-cfg("MC_worker_stop2", 2, 3, 1, 0, 4, 2, 2)
-cfg("MC_worker_stop_t3", 1, 3, 0, 0, 4, 1, 3)
-cfg("LIVE_worker_stop", 1, 2, 0, 0, 3, 1, 2, spec="FairSpec", props="C06w_StopAnswered", invs="")
+cfg("MC_worker_stop", 1, 2, 0, 0, 4, 1, 2, edges=True)            # C06w: stop, ticks, completions
+cfg("MC_worker_stop2", 2, 3, 1, 0, 5, 2, 2)
+cfg("MC_worker_stop_t3", 1, 3, 0, 0, 6, 1, 3)
+cfg("LIVE_worker_stop", 1, 2, 0, 0, 4, 1, 2, spec="FairSpec", props="C06w_StopAnswered", invs="")
 cfg("NEG_worker_ReadyCheckOnce", 2, 2, 1, 0, 0, 0, 2, flip=["ReadyCheckOnce"])
 cfg("NEG_worker_RestartAll", 2, 1, 1, 0, 0, 0, 2, flip=["RestartAll"])
 cfg("NEG_worker_LifoQueue", 1, 2, 0, 0, 0, 0, 2, flip=["LifoQueue"])
-cfg("NEG_worker_DrainCalls", 1, 2, 0, 0, 2, 1, 2, flip=["DrainCalls"])
-cfg("NEG_worker_GracefulRepliesEarly", 1, 1, 0, 0, 2, 1, 2, flip=["GracefulRepliesEarly"])
-cfg("NEG_worker_IgnoreTimeout", 1, 1, 0, 0, 3, 1, 2, flip=["IgnoreTimeout"], spec="FairSpec", props="C06w_StopAnswered", invs="")
-cfg("NEG_worker_ForcedWaits", 1, 1, 0, 0, 2, 1, 2, flip=["ForcedWaits"])
+cfg("NEG_worker_DrainCalls", 1, 2, 0, 0, 4, 1, 2, flip=["DrainCalls"])
+cfg("NEG_worker_GracefulRepliesEarly", 1, 1, 0, 0, 4, 1, 2, flip=["GracefulRepliesEarly"])
+cfg("NEG_worker_IgnoreTimeout", 1, 1, 0, 0, 4, 1, 2, flip=["IgnoreTimeout"], spec="FairSpec", props="C06w_StopAnswered", invs="")
+cfg("NEG_worker_ForcedWaits", 1, 1, 0, 0, 4, 1, 2, flip=["ForcedWaits"])
 print("worker configs written")
